@@ -826,6 +826,9 @@ func runC19(c *run.Ctx, s *kit.Summary) {
 		}
 		s.Case("resolvers:"+t, true)
 		ks = append(ks, mk("resolvers", "flag.resolvers", "c19.resolvers", []string{t}, func(out string, s *kit.Summary, k *kase) {
+			if !acceptedResolversAreAddresses(out, s, k) {
+				return
+			}
 			if mutated || !doc {
 				// lists with an address the manual does not describe (no IP literal, odd port, brackets around
 				// IPv4 …): neither acceptance nor refusal is demanded
@@ -844,12 +847,20 @@ func runC19(c *run.Ctx, s *kit.Summary) {
 			}
 		}))
 	}
+	for _, text := range []string{"1.1.1.1,", ",1.1.1.1", "1.1.1.1,,8.8.8.8", "1.1.1.1, ", "1.1.1.1, 8.8.8.8", ",", " , "} {
+		ks = append(ks, mk("resolvers", "flag.resolvers", "c19.resolvers", []string{text}, func(out string, s *kit.Summary, k *kase) {
+			s.Count("resolvers:empty_or_blank_items")
+			acceptedResolversAreAddresses(out, s, k)
+		}))
+	}
 	for _, t := range gen.ResolverMalformed {
 		for _, text := range []string{t, "1.2.3.4," + t, t + ",1.2.3.4:53"} {
 			if strings.Contains(t, ",") {
 				continue
 			}
-			ks = append(ks, mk("resolvers", "flag.resolvers", "c19.resolvers", []string{text}, nil)) // model comparison only
+			ks = append(ks, mk("resolvers", "flag.resolvers", "c19.resolvers", []string{text}, func(out string, s *kit.Summary, k *kase) {
+				acceptedResolversAreAddresses(out, s, k) // refusal is not demanded; an accepted list must be addresses
+			}))
 		}
 	}
 	runCases(c, s, "resolvers", ks)
@@ -905,6 +916,27 @@ func runC19(c *run.Ctx, s *kit.Summary) {
 
 	// the real attack command against raw TCP listeners: what reaches the wire
 	runE2E(c, s, r)
+}
+
+// acceptedResolversAreAddresses: whatever list the flag accepts, every address it will dial must be an
+// ip:port (an accepted -resolvers value means "use these servers"); judged on every input, documented or not.
+func acceptedResolversAreAddresses(out string, s *kit.Summary, k *kase) bool {
+	f := strings.Fields(out)
+	if len(f) < 2 || f[0] != "ok" {
+		return true
+	}
+	for _, h := range f[2:] {
+		a := string(kit.UnHex(h))
+		if !sameDialTarget(a, a) {
+			viol(s, k, "resolver_normalisation", "an accepted -resolvers value contains something that is not an ip:port dial target", "ip:port addresses only", out,
+				map[string]interface{}{"accepted_non_address": true})
+			return false
+		}
+	}
+	if len(f) == 2 {
+		s.Count("resolvers:accepted_empty_list")
+	}
+	return true
 }
 
 // sameDialTarget: two host:port texts name the same IP and the same port number.
